@@ -56,11 +56,13 @@ def main():
             rc, out = sh("/venv/bin/python -m pytest -q -p no:cacheprovider --timeout=900 --deselect tests/func/pglr 2>&1 | tail -3", cwd=wt)
             conf["suite_tail"] = out.strip().splitlines()[-1] if out.strip() else ""
             conf["suite_passes"] = " passed" in out and "failed" not in out
-            rc, out = sh("/venv/bin/python %s" % demo, cwd=wt, timeout=600)
+            denv = dict(os.environ)
+            denv["PYTHONPATH"] = wt  # the demo lives outside the worktree: make sure it imports the worktree's parglare
+            rc, out = sh("/venv/bin/python %s" % demo, cwd=wt, timeout=600, env=denv)
             conf["demo_rc_with_change"] = rc
             conf["demo_output"] = out.strip()[-600:]
             sh("git checkout -- .", cwd=wt)
-            rc, out = sh("/venv/bin/python %s" % demo, cwd=wt, timeout=600)
+            rc, out = sh("/venv/bin/python %s" % demo, cwd=wt, timeout=600, env=denv)
             conf["demo_rc_clean"] = rc
     finally:
         sh("git -C /repo worktree remove --force %s" % wt)
